@@ -101,7 +101,21 @@ def stepCase (st : St) (v : Verdict) (i : Nat) (opText obs : String) : St × Ver
   | "count" =>
     match st.geo, op.nat "t" with
     | some g, .ok t =>
-      (st, v.expect i opText s!"c={natsStr (kinds.map (fun k => st.ring.countWithTime g t k))}" obs)
+      let v := v.expect i opText s!"c={natsStr (kinds.map (fun k => st.ring.countWithTime g t k))}" obs
+      -- Spec (count_with_time_lower / _upper / _eq) on the implementation's answer, for reads not before the last write
+      let v := if t ≥ st.tlast then
+          let impl := (listOf (obsField obs "c")).map (fun x => x.toNat?.getD 0)
+          let lo := kinds.map (fun k => windowSum g.L st.evs (g.start t - g.interval + g.L) (g.start t) k)
+          let hi := kinds.map (fun k => windowSum g.L st.evs (t - g.interval) (g.start t) k)
+          let okLen := impl.length == kinds.length
+          let inB := okLen && (List.zip impl (List.zip lo hi)).all (fun p => p.2.1 ≤ p.1 && p.1 ≤ p.2.2)
+          let off := t % g.L ≠ 0 || g.start st.tlast < t
+          let v := v.addTag (if off then "count" else "count-on-written-boundary")
+          if !inB then v.setViol s!"step={i} count_with_time outside its bounds: every event of the n newest buckets {natsStr lo} <= reported <= events not older than the interval {natsStr hi}; impl [{obs}]"
+          else if off && impl != hi then v.setViol s!"step={i} count_with_time differs from the recorded events: spec c={natsStr hi} impl [{obs}]"
+          else v
+        else v
+      (st, v)
     | _, _ => bad "bad-op"
   | "read" =>
     match st.geo, op.str "id", op.nat "t" with
@@ -121,6 +135,10 @@ def stepCase (st : St) (v : Verdict) (i : Nat) (opText obs : String) : St × Ver
             else if obsField obs "q" != q || obsField obs "qc" != qc then v.setViol s!"step={i} per-second rate differs: spec q={q} qc={qc} impl [{obs}]"
             else if obsField obs "a" != a then v.setViol s!"step={i} average rt differs: spec a={a} impl [{obs}]"
             else if obsField obs "m" != m then v.setViol s!"step={i} min rt differs: spec m={m} impl [{obs}]"
+            else if obsField obs "xb" != toString (windowMaxBucket g.L st.evs (g.start t - rd.iv + g.L) (g.start t) .pass) then
+              v.setViol s!"step={i} max of a single bucket differs: spec xb={windowMaxBucket g.L st.evs (g.start t - rd.iv + g.L) (g.start t) .pass} impl [{obs}]"
+            else if obsField obs "xc" != toString (windowMaxConc g.L st.evs (g.start t - rd.iv + g.L) (g.start t)) then
+              v.setViol s!"step={i} max concurrency differs: spec xc={windowMaxConc g.L st.evs (g.start t - rd.iv + g.L) (g.start t)} impl [{obs}]"
             else v
           else v
         -- qps_previous: Spec applies when every bucket of the earlier window is still resident
